@@ -139,6 +139,14 @@ def run(ctx):
             hdr = {lab: v[0] for lab, v in ev.items()}
             keys0 = {sh['label']: set(base.shape_keys(sh, cfg)) for sh in r0[1]['shapes']}
             keys = {sh['label']: set(base.shape_keys(sh, cfg)) for sh in r[1]['shapes']}
+            if (hdr != hdr0 or keys != keys0) and cfg['remove_empty'] and all(hdr.get(l, hdr0.get(l)) == hdr0.get(l, hdr.get(l)) for l in set(hdr) | set(hdr0)):
+                # only shapes that exist in one run and not in the other, and non-literal keys: a reference to a removed shape took
+                # its constraint with it in one order of arrival and not in the other (F-C02-2 with a tie)
+                diff = [k for l in set(keys) | set(keys0) for k in keys.get(l, set()) ^ keys0.get(l, set())]
+                fid = F.match(kf, {"kind": "order_dependent_keys", "cfg": cfg, "keys": diff, "a_shape_was_removed": True})
+                if fid:
+                    reproduced.add(fid)
+                    continue
             if hdr != hdr0 or keys != keys0:
                 viol.append({"what": "shapes / instance counts / constraint keys differ after %s" % kind,
                              "headers": [repr(hdr0)[:300], repr(hdr)[:300]],
